@@ -19,6 +19,9 @@ typedef struct {
 static gf_t gfs[MAXGF];
 static int ngf;
 static fiber_context_t* last_from[MAXT];
+static long thread_swaps[MAXT];
+// number of fiber context switches performed by a kernel thread so far
+long fmc_thread_switches(int tid) { return thread_swaps[tid]; }
 
 extern int __real_fiber_context_init(fiber_context_t*, size_t, fiber_run_function_t, void*);
 extern int __real_fiber_context_init_from_thread(fiber_context_t*);
@@ -26,6 +29,8 @@ extern void __real_fiber_context_swap(fiber_context_t*, fiber_context_t*);
 extern void __real_fiber_context_destroy(fiber_context_t*);
 extern void __real_fiber_scheduler_schedule(fiber_scheduler_t*, fiber_t*);
 extern fiber_t* __real_fiber_scheduler_next(fiber_scheduler_t*);
+
+extern void fmc_on_fiber_destroy(fiber_t* f) __attribute__((weak));
 
 static gf_t* find(fiber_context_t* c) {
   for (int i = ngf - 1; i >= 0; i--)
@@ -158,6 +163,7 @@ void __wrap_fiber_context_swap(fiber_context_t* from, fiber_context_t* to) {
   if (gfrom && gfrom->stackidx >= 0) fmc_fstacks[gfrom->stackidx].running_on = k;
   last_from[k] = from;
   fmc_cur_ctx[k] = to;
+  thread_swaps[k]++;
   __real_fiber_context_swap(from, to);
   post_swap();
 }
@@ -166,13 +172,14 @@ void __wrap_fiber_context_destroy(fiber_context_t* ctx) {
   if (fmc_in_child && ctx && !ctx->is_thread) {
     gf_t* g = find(ctx);
     if (g) {
-      if (fmc_omask & FMC_O_RUNMAP) {
-        if (g->state == G_DESTROYED) fmc_fail("runmap: fiber #%d destroyed twice", g->id);
+      if (fmc_omask & (FMC_O_RUNMAP | FMC_O_RECLAIM)) {
+        if (g->state == G_DESTROYED) fmc_fail("reclaim: fiber #%d destroyed twice", g->id);
         if (g->state == G_RUNNING || g->state == G_SAVING)
-          fmc_fail("runmap: fiber #%d reclaimed while it is still %s on T%d", g->id, gname[g->state], g->thread);
-        if (g->pending > 0) fmc_fail("runmap: fiber #%d reclaimed while it is still queued to run", g->id);
-        if (FIBER_OF(ctx)->state != FIBER_STATE_DONE) fmc_fail("runmap: fiber #%d reclaimed before it finished", g->id);
+          fmc_fail("reclaim: fiber #%d reclaimed while it is still %s on T%d", g->id, gname[g->state], g->thread);
+        if (g->pending > 0) fmc_fail("reclaim: fiber #%d reclaimed while it is still queued to run", g->id);
+        if (FIBER_OF(ctx)->state != FIBER_STATE_DONE) fmc_fail("reclaim: fiber #%d reclaimed before it finished", g->id);
       }
+      if (fmc_on_fiber_destroy) fmc_on_fiber_destroy(FIBER_OF(ctx));
       g->state = G_DESTROYED;
       if (g->stackidx >= 0) fmc_fstacks[g->stackidx].alive = 0;
     }
